@@ -118,9 +118,9 @@ type mTask struct {
 	Marker int64
 }
 type stModel struct {
-	Tasks map[string]map[string]*mTask              // root -> task
+	Tasks map[string]map[string]*mTask             // root -> task
 	Pos   map[string]map[string]map[int64]*mPosRec // root -> task -> coll
-	RS    map[string]map[string]string              // root -> key -> marker
+	RS    map[string]map[string]string             // root -> key -> marker
 }
 
 func newSTModel(roots []string) *stModel {
